@@ -1,6 +1,7 @@
 package dkgnet
 
 import (
+	"sync/atomic"
 	"bytes"
 	"encoding/binary"
 	"fmt"
@@ -189,6 +190,7 @@ type forged struct {
 	packet *pdkg.GossipPacket
 	// exempt says the statement does not require rejection for this victim (fresh joiner trusting keys in the packet)
 	exempt bool
+	signed bool // built with the harness's replica of the signed message (unusable when that replica is outdated)
 }
 
 func cloneP(p *pdkg.GossipPacket) *pdkg.GossipPacket { return proto.Clone(p).(*pdkg.GossipPacket) }
@@ -284,7 +286,7 @@ func (w *c09World) proposalForgeries(victim *Node) []forged {
 	resign := func(name string, signer *key.Pair) {
 		p := cloneP(w.proposal)
 		p.Metadata = signAs(signer, "c09", p, p.GetProposal(), w.leader.Addr)
-		out = append(out, forged{name: "resign/" + name, packet: p})
+		out = append(out, forged{name: "resign/" + name, packet: p, signed: true})
 	}
 	resign("by-other-member", w.members[0].Pair)
 	if w.leaver != nil {
@@ -306,7 +308,25 @@ func (w *c09World) proposalForgeries(victim *Node) []forged {
 			}
 		}
 		p.Metadata = signAs(w.outsider, "c09", p, t, w.leader.Addr)
-		out = append(out, forged{name: "substitute/leader-key-replaced-by-attacker", packet: p, exempt: victim == w.joiner})
+		out = append(out, forged{name: "substitute/leader-key-replaced-by-attacker", packet: p, exempt: victim == w.joiner, signed: true})
+	}
+	// smuggling: the genuine lists are kept, and a second entry with the leader's ADDRESS but the attacker's key is added
+	// (to the joiners, whose keys a member cannot check against its group record, or at the end of the remainers); the attacker
+	// signs claiming to be the leader. The sender's key must be taken from the genuine entry.
+	for _, where := range []string{"joining", "remaining-tail", "joining-head"} {
+		p := cloneP(w.proposal)
+		t := p.GetProposal()
+		dup := &pdkg.Participant{Address: w.leader.Addr, Key: w.outsider.Public.ToProto().Key, Signature: w.outsider.Public.Signature}
+		switch where {
+		case "joining":
+			t.Joining = append(t.Joining, dup)
+		case "joining-head":
+			t.Joining = append([]*pdkg.Participant{dup}, t.Joining...)
+		default:
+			t.Remaining = append(t.Remaining, dup)
+		}
+		p.Metadata = signAs(w.outsider, "c09", p, t, w.leader.Addr)
+		out = append(out, forged{name: "smuggle/leader-address-with-attacker-key-in-" + where, packet: p, exempt: victim == w.joiner, signed: true})
 	}
 	// entitlement: a non-leader member proposes in its own name with its own valid signature, naming itself leader while the real
 	// leader stays a remainer (legal shape) -> allowed by the protocol (anybody remaining may lead): NOT a forgery, skipped.
@@ -314,13 +334,33 @@ func (w *c09World) proposalForgeries(victim *Node) []forged {
 	{
 		p := cloneP(w.proposal)
 		p.Metadata = signAs(w.members[0].Pair, "c09", p, p.GetProposal(), w.members[0].Addr)
-		out = append(out, forged{name: "entitlement/member-sends-leaders-proposal", packet: p})
+		out = append(out, forged{name: "entitlement/member-sends-leaders-proposal", packet: p, signed: true})
 	}
 	return out
 }
 
+// replicaOutdated is set when the harness's replica of the signed message no longer matches the code under test.
+var replicaOutdated atomic.Value
+
+func unsignedOnly(all []forged) []forged {
+	var out []forged
+	for _, f := range all {
+		if !f.signed {
+			out = append(out, f)
+		}
+	}
+	return out
+}
+
+func failIfReplicaOutdated(t *testing.T) {
+	if v := replicaOutdated.Load(); v != nil {
+		t.Fatalf("HARNESS OUTDATED: the signed-message replica no longer matches the code under test (%v); only signature-keeping mutations were tried", v)
+	}
+}
+
 func TestC09Proposal(t *testing.T) {
 	rec := stats.Open(t, "C09")
+	defer failIfReplicaOutdated(t)
 	rapid.Check(t, func(rt *rapid.T) {
 		scheme := rapid.SampledFrom(fx.SchemeNames).Draw(rt, "scheme")
 		seed := rapid.Uint64Range(1, 1<<32).Draw(rt, "keyseed")
@@ -349,10 +389,12 @@ func TestC09Proposal(t *testing.T) {
 		}
 		// the replica of the signed message must match the code under test: the pristine signature verifies against it
 		sch := fx.Scheme(scheme)
-		if err := sch.AuthScheme.Verify(w.leader.Pair.Public.Key, signedMessage("c09", w.proposal, w.terms), w.proposal.Metadata.Signature); err != nil {
-			rt.Fatalf("HARNESS OUTDATED: the signed-message replica no longer matches the code under test: %v", err)
-		}
 		all := w.proposalForgeries(victim)
+		if err := sch.AuthScheme.Verify(w.leader.Pair.Public.Key, signedMessage("c09", w.proposal, w.terms), w.proposal.Metadata.Signature); err != nil {
+			// only the mutations that keep the original signature can be tried; the run ends as "could not run" unless one of them is accepted
+			replicaOutdated.Store(fmt.Sprintf("proposal: %v", err))
+			all = unsignedOnly(all)
+		}
 		pick := rapid.IntRange(0, len(all)-1).Draw(rt, "forgery")
 		f := all[pick]
 		desc := fmt.Sprintf("proposal %s victim=%s(%s) leaver=%v forgery=%s", scheme, victimKind, victim.Addr, withLeaver, f.name)
@@ -475,7 +517,7 @@ func (w *c09World) followUpForgeries(fu *followUp) []forged {
 			f(p)
 		}
 		p.Metadata = signAs(signer, "c09", p, w.terms, claimed)
-		out = append(out, forged{name: fu.kind + "/" + name, packet: p})
+		out = append(out, forged{name: fu.kind + "/" + name, packet: p, signed: true})
 	}
 	other := w.leader
 	if fu.sender == w.leader {
@@ -522,6 +564,7 @@ func (w *c09World) followUpForgeries(fu *followUp) []forged {
 
 func TestC09FollowUps(t *testing.T) {
 	rec := stats.Open(t, "C09")
+	defer failIfReplicaOutdated(t)
 	rapid.Check(t, func(rt *rapid.T) {
 		scheme := rapid.SampledFrom(fx.SchemeNames).Draw(rt, "scheme")
 		seed := rapid.Uint64Range(1, 1<<32).Draw(rt, "keyseed")
@@ -544,8 +587,10 @@ func TestC09FollowUps(t *testing.T) {
 			rt.Fatalf("harness: %v", err)
 		}
 		sch := fx.Scheme(scheme)
+		replicaOK := true
 		if err := sch.AuthScheme.Verify(fu.sender.Pair.Public.Key, signedMessage("c09", fu.packet, w.terms), fu.packet.Metadata.Signature); err != nil {
-			rt.Fatalf("HARNESS OUTDATED: the signed-message replica no longer matches the code under test for %s packets: %v", kind, err)
+			replicaOutdated.Store(fmt.Sprintf("%s: %v", kind, err))
+			replicaOK = false
 		}
 		var vnames []string
 		for k := range fu.victims {
@@ -555,6 +600,9 @@ func TestC09FollowUps(t *testing.T) {
 		vk := rapid.SampledFrom(vnames).Draw(rt, "victim")
 		victim := fu.victims[vk]
 		all := w.followUpForgeries(fu)
+		if !replicaOK {
+			all = unsignedOnly(all)
+		}
 		f := all[rapid.IntRange(0, len(all)-1).Draw(rt, "forgery")]
 		desc := fmt.Sprintf("%s %s victim=%s(%s) leaver=%v forgery=%s", kind, scheme, vk, victim.Addr, withLeaver, f.name)
 		before := stateBytes(victim)
